@@ -338,6 +338,12 @@ func constructs() []construct {
 		{"for", func(d []bool, wa, wb string) []item {
 			return []item{{tag: "for i in l", block: true, dl: d[0], dr: d[1]}, {text: wa + "c" + wb}, {tag: "endfor", block: true, dl: d[2], dr: d[3]}}
 		}, 4},
+		{"if-blank", func(d []bool, wa, wb string) []item { // the body is whitespace only (or empty): the options can reduce it to nothing
+			return []item{{tag: "if 1", block: true, dl: d[0], dr: d[1]}, {text: wa + wb}, {tag: "endif", block: true, dl: d[2], dr: d[3]}}
+		}, 4},
+		{"for-blank", func(d []bool, wa, wb string) []item {
+			return []item{{tag: "for i in l", block: true, dl: d[0], dr: d[1]}, {text: wb + wa}, {tag: "endfor", block: true, dl: d[2], dr: d[3]}}
+		}, 4},
 		{"ifelse", func(d []bool, wa, wb string) []item {
 			return []item{{tag: "if 0", block: true, dl: d[0], dr: d[1]}, {text: "n"}, {tag: "else", block: true, dl: d[2], dr: d[3]}, {text: wa + "c" + wb}, {tag: "endif", block: true}}
 		}, 4},
@@ -369,7 +375,7 @@ func run(r *eng.Runner) {
 		wFull = []string{"", " ", "\t", "\n", " \n\t ", "\r\n", "\r"}
 		wBody = []string{"", "\n "}
 	}
-	r.Group("one-construct", "c15.doc", fmt.Sprintf("W a W C W b W with W over %d whitespace runs, C over 5 constructs carrying every subset of their dash positions, body whitespace over %d runs, all 4 TrimBlocks x LStripBlocks settings", len(wFull), len(wBody)))
+	r.Group("one-construct", "c15.doc", fmt.Sprintf("W a W C W b W with W over %d whitespace runs, C over 7 constructs (two with whitespace-only bodies) carrying every subset of their dash positions, body whitespace over %d runs, all 4 TrimBlocks x LStripBlocks settings", len(wFull), len(wBody)))
 	for _, c := range cs {
 		enum.Tuples(len(wFull), 4, func(wi []int) bool {
 			for mask := 0; mask < 1<<c.nd; mask++ {
@@ -395,8 +401,13 @@ func run(r *eng.Runner) {
 	}
 	w2 := []string{"", " ", "\n", " \n\t ", "\r"}
 	r.Group("two-constructs", "c15.doc", "W C1 W C2 W (and with text between) with W over 4 runs, all construct pairs, every dash subset of C1 x {none, all} of C2 (and vice versa), 4 option settings")
+	blank := func(c construct) bool { return strings.HasSuffix(c.name, "-blank") }
+	simple := func(c construct) bool { return c.name == "set" || c.name == "var" || blank(c) }
 	for _, c1 := range cs {
 		for _, c2 := range cs {
+			if (blank(c1) && !simple(c2)) || (blank(c2) && !simple(c1)) {
+				continue // the whitespace-only bodies are paired with the body-less constructs and with each other
+			}
 			enum.Tuples(len(w2), 3, func(wi []int) bool {
 				for _, mid := range []string{"", "m"} {
 					seen := map[[2]int]bool{}
